@@ -9,21 +9,28 @@ def T(name, q, th, th_shards=16, pkg="internal", race=False, q_timeout=300, th_t
     d.update(kw)
     return d
 
+def F(name, seconds=180, pkg="internal"):
+    """native go fuzz target, thorough tier only; 'checks' carries the fuzzing time in seconds"""
+    return dict(name=name, pkg=pkg, race=False, fuzz=True, tiers=("thorough",),
+                quick=dict(checks=0, shards=1, timeout=60),
+                thorough=dict(checks=seconds, shards=1, timeout=seconds + 300))
+
+
 PROPS = {
     "C01": dict(tests=[T("TestVerifC01", 1500, 12000, shrinktime="0s", gomaxprocs=[16, 4, 2, 16])]),
-    "C02": dict(tests=[T("TestVerifC02Pipeline", 15000, 200000)]),
+    "C02": dict(tests=[T("TestVerifC02Pipeline", 15000, 200000), F("FuzzVerifC02Pipeline")]),
     "C03": dict(tests=[T("TestVerifC03Seq", 4000, 60000), T("TestVerifC03Hybrid", 2000, 20000)]),
-    "C04": dict(tests=[T("TestVerifC04Wheel", 20000, 300000), T("TestVerifC04Pipeline", 8000, 100000)]),
+    "C04": dict(tests=[T("TestVerifC04Wheel", 20000, 300000), T("TestVerifC04Pipeline", 8000, 100000), F("FuzzVerifC04Wheel")]),
     "C05": dict(tests=[T("TestVerifC05Pipeline", 15000, 200000), T("TestVerifC05Pool", 8000, 100000),
                        T("TestVerifC05Conc", 40, 600, shrinktime="0s", gomaxprocs=[16, 4, 8, 16]),
-                       T("TestVerifC05Update", 300, 4000, shrinktime="0s")]),
+                       T("TestVerifC05Update", 300, 4000, shrinktime="0s"), F("FuzzVerifC05Pipeline")]),
     "C06": dict(tests=[T("TestVerifC06Seq", 4000, 60000)]),
-    "C07": dict(tests=[T("TestVerifC07", 30000, 400000)]),
+    "C07": dict(tests=[T("TestVerifC07", 30000, 400000), F("FuzzVerifC07")]),
     "C08": dict(tests=[T("TestVerifC08Buffer", 6000, 100000), T("TestVerifC08Store", 150, 1500, shrinktime="0s")]),
     "C09": dict(tests=[T("TestVerifC09", 120, 400, shrinktime="0s", th_timeout=2400),
                        T("TestVerifC09Policy", 12, 150, q_shards=6, shrinktime="0s", th_timeout=2400)]),
     "C10": dict(tests=[T("TestVerifC10", 60, 1200, pkg=".", shrinktime="0s")]),
-    "C11": dict(tests=[T("TestVerifC11", 3000, 30000)]),
+    "C11": dict(tests=[T("TestVerifC11", 3000, 30000), F("FuzzVerifC11")]),
     "C12": dict(level="fault_enumeration", evaluations_from_extra="c12_faulted_loads", tests=[T("TestVerifC12", 1, 10, q_shards=16, q_timeout=900, th_timeout=3000)]),
     "C13": dict(tests=[T("TestVerifC13Group", 1500, 20000), T("TestVerifC13Store", 400, 6000, shrinktime="0s"),
                        T("TestVerifC13GroupStress", 25, 200, shrinktime="0s", gomaxprocs=[16, 4, 8, 16])]),
@@ -33,7 +40,7 @@ PROPS = {
                        # the maphash.Comparable hasher (Go >= 1.24) is exercised with the newer toolchain in the thorough tier
                        dict(T("TestVerifC18", 6000, 50000, th_shards=8), go="go1.26.8", tiers=("thorough",), label="go1.26.8")]),
     "C16": dict(tests=[T("TestVerifC16", 300, 4000, shrinktime="0s", gomaxprocs=[16, 4, 2, 16]), T("TestVerifC16Seq", 3000, 40000)]),
-    "C17": dict(tests=[T("TestVerifC17", 20000, 150000)]),
+    "C17": dict(tests=[T("TestVerifC17", 20000, 150000), F("FuzzVerifC17")]),
     "C19": dict(tests=[T("TestVerifC19", 250, 3000, race=True, shrinktime="0s", gomaxprocs=[16, 4, 8, 16], q_timeout=400)]),
     "C20": dict(tests=[T("TestVerifC20", 400, 6000, shrinktime="0s", gomaxprocs=[16, 4, 2, 16])]),
 }
